@@ -160,6 +160,12 @@ func (e *stubEvm) CallEVM(ctx sdk.Context, _ abi.ABI, from, contract common.Addr
 		to := args[0].(common.Address)
 		amt := args[1].(*big.Int)
 		denom := "sbt/" + strings.ToLower(contract.Hex()[2:])
+		// a contract the chain deployed itself has an address the model does not compute: name it by its tenant
+		for _, t := range e.w.SK.GetAllTenants(ctx) {
+			if crypto.CreateAddress(common.BytesToAddress(stypes.GetTenantTreasuryAccount(t.Id)), 0) == contract {
+				denom = fmt.Sprintf("sbt/auto.%d", t.Id)
+			}
+		}
 		coins := sdk.NewCoins(sdk.NewCoin(denom, math.NewIntFromBigInt(amt)))
 		if err := e.w.A.BankKeeper.MintCoins(ctx, erc20types.ModuleName, coins); err != nil {
 			return nil, err
